@@ -265,6 +265,7 @@ def run_shards(cid, cfg, bins, tier, seed, tag, replay=None, extra_env=None):
     outdir = os.path.join(BUILD, tag, "out")
     shutil.rmtree(outdir, ignore_errors=True)
     os.makedirs(outdir)
+    os.makedirs(os.path.join(BUILD, "replays-scratch"), exist_ok=True)
     nsh = 1 if replay else cfg.get("shards", {}).get(tier, NCPU)
     budget = cfg.get("budget_s", {}).get(tier, 100 if tier == "quick" else 1500)
     procs = []
@@ -277,7 +278,9 @@ def run_shards(cid, cfg, bins, tier, seed, tag, replay=None, extra_env=None):
             # which keeps executions inside a bubble reproducible also on a loaded machine
             env["GODEBUG"] = (env.get("GODEBUG", "") + ",asyncpreemptoff=1").strip(",")
             env.update(VERIF_TIER=tier, VERIF_SEED=str(seed), VERIF_SHARD="%d/%d" % (sh, nsh), VERIF_OUT=rep,
-                       VERIF_BUDGET_S=str(budget), VERIF_REPLAYS=os.path.join(VERIF, "replays"),
+                       VERIF_BUDGET_S=str(budget),
+                       # counterexamples of mutated / patched builds go to scratch, those of the real tree to /verif/replays
+                       VERIF_REPLAYS=os.path.join(VERIF, "replays") if tag == cid else os.path.join(BUILD, "replays-scratch"),
                        GOMAXPROCS=str(cfg.get("gomaxprocs", 1)), VERIF_PROP=cid)
             if replay:
                 env["VERIF_REPLAY"] = os.path.abspath(replay)
